@@ -42,11 +42,11 @@ def _interp(extra=None, contracts=None):
     return it
 
 
-def _vol(cx, name="vol"):
+def _vol(cx, name="vol", dtype="float64"):
     size = [SV(z3.Int(n)) for n in ("X", "Y", "Z")]
     for s in size:
         cx.assume(s.t >= 1)
-    return voxels.input_array(name, list(size)), size
+    return voxels.input_array(name, list(size), dtype=dtype), size
 
 
 class Rotate(Contract):
@@ -137,17 +137,22 @@ class StartEnd(Contract):
 
     def replay(self, clause, model, cfg):
         from rtc import c14 as r
-        return r.replay_window(model)
+        return r.replay_window(model, vtype={"float64": 0, "int16": 1}.get((cfg or {}).get("dtype")))
 
 
 class ExtractSubvolume(Contract):
     prop = "C14"
     module = "cryomap"
     qual = "extract_subvolume"
+    # the volume's data type is a configuration: the fill value is the volume mean as a real number also for integer-typed tomograms / masks
+    configs = [{"dtype": "float64"}, {"dtype": "int16"}]
+
+    def cfg_name(self, cfg):
+        return f"volume_dtype={cfg['dtype']}"
 
     def bind(self, cx, cfg):
         it = _interp()
-        x, size = _vol(cx)
+        x, size = _vol(cx, dtype=cfg["dtype"])
         Ss = [SV(z3.Int(f"S{a}sz")) for a in "xyz"]
         co = [SV(z3.Int(f"c{a}")) for a in "xyz"]
         for s in Ss:
@@ -167,7 +172,7 @@ class ExtractSubvolume(Contract):
 
     def replay(self, clause, model, cfg):
         from rtc import c14 as r
-        return r.replay_window(model)
+        return r.replay_window(model, vtype={"float64": 0, "int16": 1}.get((cfg or {}).get("dtype")))
 
 
 class Crop(Contract):
@@ -217,7 +222,7 @@ class Crop(Contract):
 
     def replay(self, clause, model, cfg):
         from rtc import c14 as r
-        return r.replay_window(model)
+        return r.replay_window(model, vtype={"float64": 0, "int16": 1}.get((cfg or {}).get("dtype")))
 
 
 class _Particles(frames._Generic):
